@@ -1198,6 +1198,7 @@ class FPR_NxM(Model):
         self.default_params = deepcopy(self.param_dic)
         self.pin_dic = {Pin(f"a{i}"): i for i in range(N)}
         self.pin_dic.update({Pin(f"b{i}"): N + i for i in range(M)})
+        self.N = N + M
         Sint = np.zeros((N, M), complex)
         for i in range(N):
             for j in range(M):
